@@ -60,7 +60,11 @@ def run(tier, seed):
         "every solver verdict cross-checked by a second solver",
     ]
     res.assumptions = ["Function-valued constants (val.Function.type_ = inner signature of the body's root) and DfBase.load are covered by the bounded run only"]
-    standard_flow(res, FILES, targets(), None, bounded_modules=[("bounded.c14", 180, 900)])
+    # "the type it reports is the type its serialized form inhabits": the encoders of sum / extension values and
+    # of Const write exactly the reported type, tag and fields (per-class encode/decode lemmas shared with C05)
+    codec_files = [os.path.join(VERIF, "contracts", f) for f in ("node_port.py", "tys.py", "codec.py", "ops.py")]
+    codec_lemmas = ["code_lemma:rt_val_Sum", "code_lemma:rt_val_Extension", "code_lemma:rt_op_Const", "code_lemma:rt_op_LoadConst"]
+    standard_flow(res, FILES, targets(), None, bounded_modules=[("bounded.c14", 180, 900)], more=[(codec_files, codec_lemmas)])
     for g in ground():
         res.ground.append(g)
         if not g["ok"]:
